@@ -573,6 +573,8 @@ def sessions_huge(args):
     world.initial(h, w)
     term = world.proxy.term
     pals = [(), RED, (("bg", 44), ("bold", True), ("fg", 33)), (("bg", 42), ("fg", 35), ("underline", True)), (("bold", True), ("invert", True))]
+    if rich:
+        pals = [tuple(sorted((("bg", 40 + k % 8), ("fg", 30 + (k * 3) % 8)) + ((("bold", True),) if k % 2 else (("underline", True), ("dark", True))))) for k in range(7)]
 
     def make(step, which):
         rows = []
@@ -595,11 +597,15 @@ def sessions_huge(args):
         case = {"hide_cursor": hide, "size": [h, w], "family": "huge screen", "per_cell_formatting": rich, "step": step, "rows_changed": which, "cursor": list(cur)}
         acc.case(True, key=("huge", hide, h, w, rich, step), sample=case)
         acc.transitions += 1
+        world.proxy.log = []
         try:
             world.win.render_to_terminal(build_array(arr), cur)
         except Exception as ex:  # noqa
             acc.failure("C02:render_raises:" + type(ex).__name__, case, repr(ex))
             break
+        finally:
+            acc.extra["largest_render_characters"] = max(acc.extra.get("largest_render_characters", 0), sum(len(x) for x in world.proxy.log))
+            world.proxy.log = None
         if not check_screen(acc, term, arr, cur, hide, case, sb):
             break
         step += 1
@@ -648,7 +654,7 @@ def sessions_two_windows(args):
 
 def run(ctx):
     rep = Report()
-    huge = [(ctx.tier, ctx.seed, hide, h, w, rich) for hide in (True, False) for (h, w, rich) in ((140, 12, False), (130, 3, True), (100, 60, True), (129, 40, False))]
+    huge = [(ctx.tier, ctx.seed, hide, h, w, rich) for hide in (True, False) for (h, w, rich) in ((140, 12, False), (130, 3, True), (100, 80, True), (129, 40, False))]
     for d in ctx.pmap(sessions_huge, huge):
         rep.merge(d, "screens_of_100_to_140_rows")
     for d in ctx.pmap(sessions_two_windows, [(ctx.tier, ctx.seed, hide, p, 8) for hide in (True, False) for p in range(8)]):
